@@ -1,5 +1,6 @@
 import GbVerif.Model.Cache
 import GbVerif.Proofs.Enum
+import GbVerif.Proofs.CartFrame
 /-!
 C03 — the translation cache is transparent, including across ROM bank switches.
 The cache model abstracts a translation to the guest bytes it was made from; transparency is then:
@@ -159,5 +160,52 @@ example (rom : Nat → Nat) (hrom : ∀ i, rom i < 256) :
     (runHistory rom {} [(1, 0x4000), (2, 0x4000), (1, 0x4000)]).2 =
       [translate rom 1 0x4000, translate rom 2 0x4000, translate rom 1 0x4000] :=
   warm_eq_cold rom hrom _ (by intro p hp; simp at hp; rcases hp with h | h | h <;> subst h <;> decide) {} (coherent_empty rom)
+
+
+/-! ### inside a block
+
+`warm_eq_cold` is about what is handed to the CPU when a block is *entered*.  The statement of C03 also covers every
+program counter inside the block: the bytes translated at entry must still be the bytes mapped when each instruction is
+reached.  That holds exactly as long as the block itself does not store below 0x8000 (the cartridge's registers): -/
+
+open GbVerif.CoreProofs in
+/-- **block_bank_stable_partial**: a block whose stores all go to 0x8000 and above (its run on the bus with stores below
+0x8000 forbidden succeeds) runs the same on the real bus, and the cartridge state — so the ROM bank mapped at
+0x4000–0x7FFF — in front of every instruction fetch of the block, and after it, is the one at block entry: every
+instruction the interpreter executes in the block is fetched from the bank the translation was made from.
+Partial: blocks that do store below 0x8000 from the switchable bank are the recorded finding (the translation goes on
+in the old bank); for blocks located below 0x4000 such a store is harmless because they end before 0x4000
+(`low_independent`). -/
+theorem block_bank_stable_partial (r : Interp.Regs) (s : Bus.State) (fuel : Nat)
+    (res : Interp.Regs × Bus.State × Nat) (tr : List Cart.State)
+    (h : runCodeBlockAuxHi r.ip r s Interp.STATUS_NORMAL fuel = .ok (res, tr)) :
+    Cpu.runCodeBlock r s fuel = .ok res ∧
+    (∀ c ∈ tr, Cart.getRomBank c = Cart.getRomBank s.cart) ∧
+    Cart.getRomBank res.2.1.cart = Cart.getRomBank s.cart := by
+  obtain ⟨h1, h2, h3⟩ := runCodeBlockAuxHi_spec r.ip fuel r s _ res tr h
+  exact ⟨h1, fun c hc => by rw [h2 c hc], by rw [h3]⟩
+
+/-- a bus for the examples: MBC1, 4 banks; bank 1 holds `LD (0xC000),A ; INC A ; HALT` at 0x4000,
+bank 2 holds `LD (0x2100),A ; INC A ; HALT` at 0x4000 -/
+def exBus : Bus.State :=
+  Bus.create .mbc1 4 0 (fun i =>
+    if i = 0x4000 then 0xea else if i = 0x4001 then 0x00 else if i = 0x4002 then 0xc0 else if i = 0x4003 then 0x3c else if i = 0x4004 then 0x76
+    else if i = 0x8000 then 0xea else if i = 0x8001 then 0x00 else if i = 0x8002 then 0x21 else if i = 0x8003 then 0x3c else if i = 0x8004 then 0x76
+    else 0)
+
+open GbVerif.CoreProofs in
+/-- non-vacuity: a banked block with a store to work RAM satisfies the hypothesis (three fetches, all under bank 1) -/
+example : (runCodeBlockAuxHi 0x4000 { ip := 0x4000, af := 0x0300 } exBus Interp.STATUS_NORMAL 16).toOption.map
+    (fun x => (x.1.1.ip, x.2.map Cart.getRomBank)) = some (0x4005, [1, 1, 1]) := by decide +kernel
+
+open GbVerif.CoreProofs in
+/-- the boundary is sharp: the same block shape in bank 2 stores to 0x2100; the guarded run refuses it, and on the real
+bus the bank mapped under the program counter changes in mid-block (A = 3: bank 3 after the first instruction) -/
+example :
+    let s2 : Bus.State := { exBus with cart := Cart.writeRom exBus.cart 0x2100 2 }
+    (runCodeBlockAuxHi 0x4000 { ip := 0x4000, af := 0x0300 } s2 Interp.STATUS_NORMAL 16).toOption.isNone = true ∧
+    Cart.getRomBank s2.cart = 2 ∧
+    (Cpu.runNextOp { ip := 0x4000, af := 0x0300 } s2).toOption.map (fun x => Cart.getRomBank x.2.1.cart) = some 3 := by
+  decide +kernel
 
 end GbVerif.C03
